@@ -1883,6 +1883,12 @@ func (self *LockDB) doExpried(lock *Lock, forcedExpried bool, removeWaited bool)
 	}
 
 	if !forcedExpried {
+		if !removeWaited && lock.expriedTime > self.currentTime {
+			self.AddExpried(lock)
+			lockManager.glock.Unlock()
+			return
+		}
+
 		if self.status != STATE_LEADER && lock.isAof {
 			if lock.expriedTime <= 0 || self.currentTime-lock.expriedTime < EXPRIED_WAIT_LEADER_MAX_TIME {
 				lock.expriedTime = self.currentTime + 30
